@@ -299,6 +299,23 @@ func TestExhaustiveHeaders(t *testing.T) {
 			}
 		}
 	}
+	// every special scalar (and its tagged forms) as the value of the keys ConsoleWriter and the journald
+	// writer give a meaning to: time, level, message, caller, error
+	if sh == 0 {
+		for _, key := range []string{"time", "level", "message", "caller", "error"} {
+			for _, tg := range [][]byte{{}, {0xc1}, {0xc0}, {0xd9, 0x01, 0x06}} {
+				for _, sc := range specialScalars() {
+					in := append([]byte{0xbf, 0x60 | byte(len(key))}, key...)
+					in = append(append(append(in, tg...), sc...), 0xff)
+					n++
+					nt++
+					if f := checkInput(in, true); f != nil {
+						fail(t, "headers", f)
+					}
+				}
+			}
+		}
+	}
 	if ev.Thorough() {
 		for a := sh; a < 256; a += nsh {
 			for b := 0; b < 256; b++ {
